@@ -148,6 +148,17 @@ def run_case(case):
                 res.emit("enc.hexnode %s" % rlp.encode([key, b"v" * 33]).hex(), "%s %s" % ("leaf" if t else "ext", nibstr(ns)))
                 if nt != (NODE_TYPE_LEAF if t else NODE_TYPE_EXTENSION) or ek != ns:
                     res.fail("node-classify", "node written with path %r terminator %r reads back as type %r path %r" % (ns, t, nt, ek))
+                # the four classification predicates and get_node_type tell the same story for every kind of node read back:
+                # this leaf / extension, a branch carrying it as an embedded child, a branch with hash children, the blank node
+                child = node if len(rlp.encode(node)) < 32 else b"h" * 32
+                branch = rlp.decode(rlp.encode([child if i == (ns[0] if ns else 3) else b"" for i in range(16)] + [b"val" if t else b""]))
+                for nd, want in ((node, NODE_TYPE_LEAF if t else NODE_TYPE_EXTENSION), (branch, NODE_TYPE_BRANCH), (b"", NODE_TYPE_BLANK)):
+                    got, err = call(lambda: (ND.get_node_type(nd), bool(ND.is_blank_node(nd)), bool(ND.is_leaf_node(nd)),
+                                             bool(ND.is_extension_node(nd)), bool(ND.is_branch_node(nd))))
+                    exp = (want, want == NODE_TYPE_BLANK, want == NODE_TYPE_LEAF, want == NODE_TYPE_EXTENSION, want == NODE_TYPE_BRANCH)
+                    if err is not None or got != exp:
+                        res.fail("node-classify", "node %r: (get_node_type, is_blank, is_leaf, is_extension, is_branch) = %r / %r, expected %r"
+                                 % (nd, got, err, exp))
                 if bool(N.is_nibbles_terminated(full)) != t or tuple(N.remove_nibbles_terminator(full)) != ns or \
                         tuple(N.add_nibbles_terminator(ns)) != ns + (16,):
                     res.fail("terminator-helpers", "terminator helpers disagree on %r" % (full,))
